@@ -536,6 +536,11 @@ def frombase(path1, path2):
     """
     if not isparent(path1, path2):
         raise ValueError("path1 must be a prefix of path2")
+    if not path2.startswith(path1):
+        # `isparent` ignores trailing slashes of ``path1`` that ``path2``
+        # does not share (``frombase("/", "foo")``): cut after the
+        # components that were compared, not inside the next name
+        path1 = path1.rstrip("/")
     return path2[len(path1) :]
 
 
